@@ -229,8 +229,13 @@ impl Expression for Op {
 
             Or => {
                 if lhs_def.is_null() || lhs_value == Some(Value::Boolean(false)) {
-                    // lhs is always "false"
-                    self.rhs.apply_type_info(&mut state)
+                    // lhs is always "false", but it is still evaluated
+                    let rhs_def = self.rhs.apply_type_info(&mut state);
+                    if lhs_def.is_fallible() && !rhs_def.is_fallible() {
+                        rhs_def.fallible()
+                    } else {
+                        rhs_def
+                    }
                 } else if !(lhs_def.contains_null() || lhs_def.contains_boolean())
                     || lhs_value == Some(Value::Boolean(true))
                 {
@@ -252,12 +257,15 @@ impl Expression for Op {
 
             And => {
                 if lhs_def.is_null() || lhs_value == Some(Value::Boolean(false)) {
-                    // lhs is always "false"
-                    TypeDef::boolean()
+                    // lhs is always "false", but it is still evaluated
+                    TypeDef::boolean().maybe_fallible(lhs_def.is_fallible())
                 } else if lhs_value == Some(Value::Boolean(true)) {
                     // lhs is always "true"
-                    // keep the fallibility of RHS, but change it to a boolean
-                    self.rhs.apply_type_info(&mut state).with_kind(K::boolean())
+                    // keep the fallibility of RHS (which must be a boolean or null), but change it to a boolean
+                    self.rhs
+                        .apply_type_info(&mut state)
+                        .fallible_unless(K::null().or_boolean())
+                        .with_kind(K::boolean())
                 } else {
                     // unknown if lhs is true or false
                     lhs_def
